@@ -7,6 +7,7 @@ import (
 	"net"
 	"runtime"
 	"sync"
+	"syscall"
 	"time"
 
 	"github.com/netflix/rend/common"
@@ -76,6 +77,7 @@ type Client struct {
 	EOFReads int
 	Spun     bool
 	waiting  bool
+	gone     bool
 }
 
 // Waiting reports whether the server is blocked reading this connection (call at quiescence).
@@ -152,11 +154,22 @@ func (c *Client) Read(p []byte) (int, error) {
 	return n, nil
 }
 
+// GoAway models a client that has disconnected: bytes already fed can still be read, then EOF;
+// every write fails with a broken pipe.
+func (c *Client) GoAway() {
+	c.mu.Lock()
+	c.gone = true
+	c.mu.Unlock()
+}
+
 func (c *Client) Write(p []byte) (int, error) {
 	c.mu.Lock()
 	defer c.mu.Unlock()
 	if c.closed {
 		return 0, io.ErrClosedPipe
+	}
+	if c.gone {
+		return 0, syscall.EPIPE
 	}
 	c.Out = append(c.Out, p...)
 	return len(p), nil
